@@ -25,6 +25,7 @@ from ..engine import (
     run_case,
 )
 from ..runner import V
+from ..engine import is_engine_exception as _is_engine_exception
 
 ID = 'C07'
 RULE = (
@@ -126,6 +127,8 @@ class H(Hooks):
             try:
                 r = getattr(s, CAN[k])()
             except Exception as e:  # noqa: BLE001
+                if not _is_engine_exception(e):
+                    raise     # harness fault: exit 2
                 self.viol.append(V(ID, 'query_raised', k,
                                    f'{CAN[k]}() raised {e!r}'))
                 return
